@@ -333,9 +333,14 @@ def gen_nlri(rnd, afi):
     return nlen, bytes(b).hex(), (bytes(b) + bytes(32 - nb)).hex()
 
 
+# path lengths around the places where a byte count of the Secure_Path (6 per hop) or of the whole digest crosses a
+# power of two (8-bit: 42/43 hops; 16-bit: not reachable below 256 hops), and the maximum the uint8_t count allows
+LONG_PATHS = [42, 43, 44, 85, 86, 128, 255]
+
+
 def gen_case(rnd, env, nhops=None):
     afi = rnd.choice([1, 2])
-    n = nhops or rnd.choice([1, 2, 2, 3, 3, 4, 4, 5, 5, 6, 7, 8])
+    n = nhops or (rnd.choice(LONG_PATHS) if rnd.random() < 0.02 else rnd.choice([1, 2, 2, 3, 3, 4, 4, 5, 5, 6, 7, 8]))
     nlen, nl_exact, nl_buf = gen_nlri(rnd, afi)
     secs = []
     for _ in range(n):
@@ -590,6 +595,21 @@ def malformed_variants(rnd, env, c):
     mk("random bytes as signature[%d]" % k, lambda d: d["sigs"][k].__setitem__(1, bytes(rnd.randrange(256) for _ in range(rnd.choice([8, 40, 70, 72]))).hex()))
     mk("truncated signature[%d]" % k, lambda d: d["sigs"][k].__setitem__(1, d["sigs"][k][1][:2 * rnd.randrange(20, 60)]))
     mk("signature[%d] with a trailing byte" % k, lambda d: d["sigs"][k].__setitem__(1, d["sigs"][k][1] + "00"))
+    # the same (r, s) in an encoding that is not DER (long-form lengths, padded INTEGER): a strict ECDSA-Sig-Value
+    # verifier (EVP_DigestVerify, the oracle) rejects these although a lenient BER parser reads the same numbers.
+    # Hop 0 is covered by no later signature, so nothing else in the path changes.
+    def ber(sig_hex, how):
+        b = bytes.fromhex(sig_hex)
+        if len(b) < 8 or b[0] != 0x30 or b[1] >= 0x80 or b[2] != 0x02:
+            return sig_hex
+        if how == "seq":
+            return (b[:1] + bytes([0x81, b[1]]) + b[2:]).hex()
+        if how == "int":
+            return (bytes([0x30, b[1] + 1, 0x02, 0x81, b[3]]) + b[4:]).hex()
+        return (bytes([0x30, b[1] + 1, 0x02, b[3] + 1, 0x00]) + b[4:]).hex()     # non-minimal INTEGER
+    for how in ("seq", "int", "pad"):
+        for kk in sorted(set([0, k])):
+            mk("signature[%d] re-encoded in BER (%s)" % (kk, how), lambda d, kk=kk, how=how: d["sigs"][kk].__setitem__(1, ber(d["sigs"][kk][1], how)))
     ski = c["sigs"][k][0]
     junk = bytes(rnd.randrange(256) for _ in range(91)).hex()
     mk("unloadable key first under ski[%d]" % k, lambda d: d.__setitem__("table", [(d["secs"][k][2], ski, junk)] + d["table"]))
@@ -803,7 +823,7 @@ def run(chk):
             if time.time() - t0 > budget_t and i >= 12:
                 notes.append("time budget reached after %d paths" % i)
                 break
-            c = gen_case(rnd, env)
+            c = gen_case(rnd, env, nhops={2: 43, 9: 44}.get(i) if quick else {2: 43, 7: 86, 11: 255, 15: 42, 19: 128}.get(i))
             n = len(c["secs"])
             stats["hops"][str(n)] = stats["hops"].get(str(n), 0) + 1
             stats["afi"][str(c["afi"])] = stats["afi"].get(str(c["afi"]), 0) + 1
@@ -824,18 +844,18 @@ def run(chk):
                     raise Finding("impl-vs-spec", "layout", {"what": "only %d of %d hops hashed" % (len(hashed), n)}, c)
                 check_align(env, c, "V", stats)
                 # single-bit corruptions
-                for cls_, desc, d in flips_for(rnd, c, per_class):
+                for cls_, desc, d in flips_for(rnd, c, per_class if n <= 16 else 1):
                     d["table"] = [tuple(e) for e in d["table"]]
                     d["no_resign"] = True
                     stats["flips"][cls_] = stats["flips"].get(cls_, 0) + 1
                     r2, _, _ = examine(env, d, stats, what="flip: " + desc)
                     stats["flip_rc"][str(r2)] = stats["flip_rc"].get(str(r2), 0) + 1
                 # specific codes and their priority; malformed inputs
-                for desc, d in error_variants(rnd, env, c):
+                for desc, d in (error_variants(rnd, env, c) if n <= 16 else []):
                     stats["error_variants"] += 1
                     d["no_resign"] = True
                     examine(env, d, stats, what="error: " + desc)
-                for desc, d in malformed_variants(rnd, env, c):
+                for desc, d in (malformed_variants(rnd, env, c) if n <= 16 else []):
                     stats["malformed"] += 1
                     d["no_resign"] = True
                     examine(env, d, stats, what="malformed: " + desc)
